@@ -19,7 +19,7 @@ func init() {
 			"requires one; (message-codec-coverage) for every type of plumbing/protocol/packp that has both Encode(io.Writer) error and Decode(io.Reader) error, each exported field read by the functions reachable from Encode is also written by the " +
 			"functions reachable from Decode (a field that is sent but never parsed cannot round-trip); (decode-accepts-encoded-order) for UploadRequest, whose decoder is a hand-written sequence of loops: for every decoder loop and every line kind the encoder " +
 			"writes after the kinds that loop consumes, a three-valued evaluation of the decoder's branch conditions under the assumption 'the line just read has that kind' reaches the condition that recognises the kind before any rejecting return " +
-			"(so want→shallow→deepen*→filter orderings produced by Encode are not refused). Not decided: equality of decoded values; that git parses go-git's bytes.",
+			"(so want→shallow→deepen*→filter orderings produced by Encode are not refused); (depth-lines-independent) with Deepen == 0, DeepenSince set and a DeepenNot entry, UploadRequest.Encode writes the deepen-since line and then still reaches the write of a deepen-not line (the two may be combined; only `deepen <n>` excludes them). Not decided: equality of decoded values; that git parses go-git's bytes.",
 		Assumptions: []string{},
 		Run:         runC35,
 	})
@@ -102,6 +102,7 @@ func runC35(c *Ctx) {
 	c.Floor("decode-accepts-encoded-order", 8)
 	checkShallowLinesAccepted(c, "shallow-lines-accepted")
 	c.Floor("shallow-lines-accepted", 1)
+	checkDepthLinesIndependent(c, "depth-lines-independent")
 	const capShort = "plumbing/protocol/capability"
 	const r1 = "capability-tables"
 	known, req, multi := p.Func(capShort+".isKnown"), p.Func(capShort+".requiresArgument"), p.Func(capShort+".allowsMultipleArguments")
